@@ -415,7 +415,11 @@ func c20RunCase(rg *c20Rig, c c20Case) (c20Outcome, error) {
 	return o, nil
 }
 
-// c20Sig derives the canonical class of a (1-minimal) failing case.
+// c20Sig derives the canonical class of a (1-minimal) failing case: which oracle clause
+// failed and which class of variable the rejected SET still present in the minimal case was
+// about ("none": the mismatch needs no rejected SET at all). The class of the mismatching
+// variable is reported in the description only: the same defect shows up through every
+// class of variable that happens to be lying around.
 func c20Sig(c c20Case, m c20Mismatch) string {
 	rej := "none"
 	for _, s := range c.Steps {
@@ -423,15 +427,15 @@ func c20Sig(c c20Case, m c20Mismatch) string {
 			rej = c20ClassOf(s.Var, false)
 		}
 	}
-	return fmt.Sprintf("C20:%s:%s:after-reject=%s", m.Clause, m.Class, rej)
+	return fmt.Sprintf("C20:%s:after-reject=%s", m.Clause, rej)
 }
 
-// c20Shrink removes steps one at a time while a mismatch of the same clause and class
-// remains; the result is 1-minimal.
+// c20Shrink removes steps one at a time while a mismatch of the same clause remains; the
+// result is 1-minimal.
 func c20Shrink(rg *c20Rig, c c20Case, m c20Mismatch) (c20Case, c20Mismatch, c20Outcome, error) {
 	same := func(o c20Outcome) (c20Mismatch, bool) {
 		for _, x := range o.Mis {
-			if x.Clause == m.Clause && x.Class == m.Class {
+			if x.Clause == m.Clause {
 				return x, true
 			}
 		}
@@ -542,7 +546,7 @@ func TestVerif_C20(t *testing.T) {
 	report := func(c c20Case, o c20Outcome) bool {
 		seen := map[string]bool{}
 		for _, m := range o.Mis {
-			k := m.Clause + "/" + m.Class
+			k := m.Clause
 			if seen[k] {
 				continue
 			}
